@@ -287,6 +287,12 @@ func (x *Exec) finishObls() []*Obl {
 		for _, n := range x.defOrder {
 			if b := x.defTerms[n]; b != nil {
 				o.DefBodies = append(o.DefBodies, b)
+				if x.defIsRec[n] {
+					if o.RecDefs == nil {
+						o.RecDefs = map[string]*recDef{}
+					}
+					o.RecDefs[n] = &recDef{params: x.defParams[n], body: b}
+				}
 			}
 		}
 	}
@@ -601,7 +607,23 @@ func (u *Universe) verifyLemma(l *Lemma) (res *FuncResult) {
 			unsupported("%s: induct %s: no such integer parameter", l.Where, l.Induct)
 		}
 		x.addObl("lemma", "induct.nonneg", st, Le(IntC(0), e.toIntTerm(nv)), l.Where)
-		ih := e.sub(map[string]Value{l.Induct: Scalar{Sub(e.toIntTerm(nv), IntC(1)), nv.Typ}})
+		ihm := map[string]Value{l.Induct: Scalar{Sub(e.toIntTerm(nv), IntC(1)), nv.Typ}}
+		for _, sb := range l.IHSubst {
+			e.where = sb.Line
+			var pt types.Type
+			for _, p := range l.Params {
+				if p.Name == sb.Name {
+					if t, err := u.resolveType(pkg, p.Type); err == nil {
+						pt = t
+					}
+				}
+			}
+			if pt == nil {
+				unsupported("%s: ihsubst %s: no such parameter", sb.Line, sb.Name)
+			}
+			ihm[sb.Name] = e.coerceSpecArg(e.expr(sb.Expr), pt)
+		}
+		ih := e.sub(ihm)
 		var hyp, concl []*Term
 		hyp = append(hyp, Le(IntC(1), e.toIntTerm(nv)))
 		for _, r := range l.Requires {
